@@ -173,7 +173,7 @@ func (vt *Model) StartWithSize(cmd *exec.Cmd, width int, height int) error {
 				switch seq := seq.(type) {
 				case ansi.EOF:
 					err := cmd.Wait()
-					vt.eventHandler(EventClosed{
+					vt.handler()(EventClosed{
 						Term:  vt,
 						Error: err,
 					})
@@ -182,12 +182,12 @@ func (vt *Model) StartWithSize(cmd *exec.Cmd, width int, height int) error {
 					vt.update(seq)
 				}
 			case ev := <-vt.events:
-				vt.eventHandler(ev)
+				vt.handler()(ev)
 			case <-vt.timer.C:
 				vt.mu.Lock()
 				vt.timer.Stop()
 				vt.mu.Unlock()
-				vt.eventHandler(vaxis.Redraw{})
+				vt.handler()(vaxis.Redraw{})
 			}
 		}
 	}()
@@ -313,6 +313,15 @@ func (vt *Model) String() string {
 
 func (vt *Model) postEvent(ev vaxis.Event) {
 	vt.events <- ev
+}
+
+// handler returns the attached event handler. Attach and Detach replace it
+// under the mutex while the PTY goroutine is running. The handler itself is
+// called without the mutex
+func (vt *Model) handler() func(vaxis.Event) {
+	vt.mu.Lock()
+	defer vt.mu.Unlock()
+	return vt.eventHandler
 }
 
 func (vt *Model) Attach(fn func(ev vaxis.Event)) {
